@@ -401,6 +401,12 @@ where
     pub fn locked_keys(&self) -> Vec<K> {
         self.map.keys_with_entries_or_locked()
     }
+
+    /// Snapshot of the internal state for verification harnesses, see [crate::verif].
+    #[cfg(feature = "verif_hooks")]
+    pub fn verif_snapshot(&self) -> Option<Vec<crate::verif::EntrySnapshot<K, ()>>> {
+        self.map.verif_snapshot()
+    }
 }
 
 impl<K> Default for LockPool<K>
